@@ -225,8 +225,13 @@ def leap_direction_rule(ctx, chk, rule):
         l, r_ = "".join(ast.unparse(c.left).split()), "".join(ast.unparse(c.comparators[0]).split())
         cur = f.params()[2]
         names = {x.id for x in ast.walk(c) if isinstance(x, ast.Name)} - {cur}
-        nxt = [n for n in names if "next" in n]
-        prv = [n for n in names if "prev" in n]
+
+        def bound_to(helper):
+            return [n_ for n_ in sorted(names) if any(
+                isinstance(a_, ast.Assign) and any(isinstance(t_, ast.Name) and t_.id == n_ for t_ in a_.targets) and isinstance(a_.value, ast.Call)
+                and ast.unparse(a_.value.func).split(".")[-1] == helper for a_ in iter_own_nodes(f.node))]
+        nxt = bound_to("get_next_leap_year")
+        prv = bound_to("get_previous_leap_year")
         ok = bool(nxt and prv) and l == "%s-%s" % (nxt[0], cur) and r_ == "%s-%s" % (cur, prv[0]) and isinstance(c.ops[0], (ast.Lt, ast.LtE))
         chk.ob(rule, "_get_correct_leap_year: without a preference the closer leap year is taken (distance ahead vs distance behind; a tie is not the property's business)", ok,
                "compares `%s`" % ast.unparse(c), key={"function": f.key, "construct": "closer leap year"}, file=f.file, function=f.qual, line=c.lineno)
@@ -260,7 +265,12 @@ def leap_direction_rule(ctx, chk, rule):
            file=g.file, function=g.qual, line=g.node.lineno)
     t_ = " ".join(ast.unparse(g.node).split())
     import re as _re
-    m = _re.search(r"(\w+) = %s \+ %s while not calendar\.isleap\(\1\): \1 \+= %s return \1" % (yr, stepv or "step", stepv or "step"), t_)
+    sv = stepv or "step"
+    m = _re.search(r"(\w+) = %s \+ %s while not calendar\.isleap\(\1\): \1 \+= %s return \1" % (yr, sv, sv), t_) \
+        or _re.search(r"(\w+) = %s \+ %s while True: if calendar\.isleap\(\1\): return \1 \1 \+= %s" % (yr, sv, sv), t_)
+    if m is None and not _re.search(r"(\w+) = %s\b(?! \+)" % yr, t_) and not _re.search(r"\+= (?!%s)" % sv, t_) and "isleap" in t_ and ("%s + %s" % (yr, sv)) in t_:
+        chk.error(rule, "_get_leap_year: the search loop is written in a form this rule does not know")
+        return
     chk.ob(rule, "_get_leap_year starts one step beside the given year and walks until calendar.isleap", m is not None,
            "the search includes the given year itself, skips a year, or tests something else", key={"function": g.key, "construct": "search loop"},
            file=g.file, function=g.qual, line=g.node.lineno)
